@@ -1,3 +1,5 @@
+//go:build !skip_c11
+
 package props
 
 import (
@@ -20,8 +22,6 @@ import (
 
 var binOps = []string{"+", "-", "*", "/", "%", "&", "|", "&&", "||", "<", ">", "<=", ">=", "==", "!=", "<<", ">>"}
 var unOps = []string{"-", "#", "!", "~"}
-
-var documentedErrs = map[string]bool{val.ENil: true, val.EType: true, val.EZeroDiv: true, val.EIndex: true, val.EArity: true, val.EConversion: true, val.ERead: true}
 
 func c11Pool() []val.Value {
 	I, F, S, A := val.IntV, val.FloatV, val.StrV, val.ArrV
@@ -399,7 +399,7 @@ func randValue(r *core.Rng, depth int) val.Value {
 		var sb strings.Builder
 		for i := 0; i < n; i++ {
 			if r.Chance(1, 12) {
-				sb.WriteString([]string{"é", "日", "\n", "\"", " "}[r.Intn(5)])
+				sb.WriteString([]string{"é", "日", "\n", "\"", " ", "%", "%d", "%s"}[r.Intn(8)])
 			} else {
 				sb.WriteByte(byte('a' + r.Intn(26)))
 			}
